@@ -292,6 +292,11 @@ def run_selection(col, cell_type, elname, nnodes):
     w = method_where(cls, "__init__")
     npts = points.shape[0]
     masks = [None, np.array([i % 3 != 0 for i in range(npts)]), np.array([P(points[i, 0]) < 1 for i in range(npts)])]
+    # the same point sets given as point ids (an index array / a list in any order, ids from the end): the other spelling numpy indexing accepts
+    # and the test-suite uses (mask=[0, 3])
+    ids1 = [i for i in range(npts) if i % 3 != 0]
+    ids2 = [i for i in range(npts) if P(points[i, 0]) < 1]
+    id_masks = [(np.array(ids1), ids1), (list(reversed(ids2)), ids2), ([i - npts for i in ids1], ids1)]
     for only_surface in (True, False):
         for mi, mask in enumerate(masks):
             def chk(only_surface=only_surface, mask=mask):
@@ -309,6 +314,24 @@ def run_selection(col, cell_type, elname, nnodes):
                 return gotk == sorted(want), "%s: selected %d faces, expected %d" % (w, len(gotk), len(want))
             col.check("C13.O4", "%s only_surface=%s mask=%d" % (cell_type, only_surface, mi),
                       "surface = faces whose node set occurs exactly once; a point mask keeps exactly the faces all of whose points satisfy it", chk)
+
+    for only_surface in (True, False):
+        for mi, (idmask, idset) in enumerate(id_masks):
+            def chk_ids(only_surface=only_surface, idmask=idmask, idset=idset):
+                quad = it.call(GLB, [], dict(order=order, dim=dim))
+                reg = it.call(cls, [mesh.copy(), el, quad], dict(grad=False, only_surface=only_surface, mask=idmask))
+                got = npmodel.to_int_array(np.asarray(it.getattr(it.getattr(reg, "mesh"), "cells_faces")))
+                gotk = sorted(tuple(sorted(f.tolist())) for f in got)
+                want = []
+                for i, k in enumerate(keys):
+                    if only_surface and keys.count(k) != 1:
+                        continue
+                    if not all(int(p) in idset for p in allfaces[i]):
+                        continue
+                    want.append(k)
+                return gotk == sorted(want), "%s: selected %d faces, expected %d" % (w, len(gotk), len(want))
+            col.check("C13.O4", "%s only_surface=%s mask given as point ids (%d)" % (cell_type, only_surface, mi),
+                      "a mask given as an array or list of point ids keeps exactly the faces all of whose points are listed", chk_ids)
 
     # the selection is a property of the faces' point *sets*: it must not depend on how the points are numbered.  For every pair of
     # distinct faces that share points, the points are renumbered such that the shared points receive the smallest (resp. the largest)
